@@ -130,7 +130,8 @@ func checkC16(c *core.Ctx, l *core.Ledger) {
 			var hit []core.Edge
 			core.Instrs(sgf, func(in ssa.Instruction) {
 				if lk, ok := in.(*ssa.Lookup); ok && lk.CommaOk {
-					if fld, _ := core.LoadedField(lk.X); fld != nil && fld.Name() == "Features" && strings.Contains(core.Sym(lk.Index), "FeatureServiceGenerator") || (ok && lk.CommaOk && func() bool { fld, _ := core.LoadedField(lk.X); return fld != nil && fld.Name() == "Features" }()) {
+					// the handle's feature set: its field keyed by api.Feature, whatever it is called
+					if fld, _ := core.LoadedField(lk.X); fld != nil && isMapKeyedBy(fld.Type(), "Feature") {
 						for _, r := range *lk.Referrers() {
 							if ex, ok := r.(*ssa.Extract); ok && ex.Index == 1 {
 								for _, rr := range *ex.Referrers() {
@@ -422,7 +423,14 @@ func checkC16(c *core.Ctx, l *core.Ledger) {
 		var def ssa.Instruction
 		core.Instrs(f, func(in ssa.Instruction) {
 			if d, ok := in.(*ssa.Defer); ok {
-				if mc, ok := d.Call.Value.(*ssa.MakeClosure); ok && len(callsIn(mc.Fn.(*ssa.Function), "Close")) >= 2 {
+				// the deferred function: a closure, or a function/method of the package called directly
+				var df *ssa.Function
+				if mc, ok := d.Call.Value.(*ssa.MakeClosure); ok {
+					df = funcValueTarget(mc)
+				} else if cal := d.Call.StaticCallee(); cal != nil && cal.Pkg == f.Pkg {
+					df = cal
+				}
+				if df != nil && len(callsIn(df, "Close")) >= 2 {
 					def = in
 				}
 			}
@@ -849,4 +857,14 @@ func closeErrorReachesResult(f *ssa.Function, d *ssa.Defer) string {
 		return "the deferred closure does not store a value computed from Close's error into the function's result"
 	}
 	return ""
+}
+
+// isMapKeyedBy: t is a map whose key type is the named type key.
+func isMapKeyedBy(t types.Type, key string) bool {
+	m, ok := t.Underlying().(*types.Map)
+	if !ok {
+		return false
+	}
+	n, ok := m.Key().(*types.Named)
+	return ok && n.Obj().Name() == key
 }
